@@ -416,6 +416,10 @@ static double leafError(const Node &l, const ob::State *ls, const json &v)
         err = std::max(err, std::fabs(r[i] - e[i]));
         errNeg = std::max(errNeg, std::fabs(r[i] + e[i]));
     }
+    if (l.k == "SO2")
+        // angles are compared on the circle: pi - ulp and -pi are the same angle up to rounding
+        // (whether a representative is in bounds is judged by satisfiesBounds, not here)
+        return std::min(err, 2 * PI - err);
     return l.k == "SO3" ? std::min(err, errNeg) : err;
 }
 
@@ -778,7 +782,7 @@ static int replay07(const std::string &path)
         }
         else
             matchTree(cur, c["exp"], p1(), p2(), m);
-        if ((!in1 && hasPlusPiLeaf(cur, p1())) || (!in2 && hasPlusPiLeaf(cur, p2())) || m.plusPi)
+        if ((!in1 && hasPlusPiLeaf(cur, p1())) || (!in2 && hasPlusPiLeaf(cur, p2())))
         {
             // D2: the interpolant is the angle +pi, which satisfiesBounds() rejects; everything derived
             // from it in this case is a consequence, so the case is reported once under this key
